@@ -84,6 +84,14 @@ def kind(name):
 class E:
     """Expression translation: returns (text, kind).  Records the free variables (used while not bound)."""
     cur_bound = frozenset()
+    local_kinds = None
+    alias = None          # source name of the variable receiving the socket call's result -> canonical name
+
+    def kind(self, name):
+        """Known variables by name; a fresh local gets the kind of the first value assigned to it."""
+        if self.local_kinds and name in self.local_kinds:
+            return self.local_kinds[name]
+        return kind(name)
 
     def use(self, name):
         if name not in self.cur_bound and name not in self.free:
@@ -97,8 +105,9 @@ class E:
                 return ("(@nil N)", "bytes")
             raise Unsupported("constant %r" % (n.value,))
         if isinstance(n, ast.Name):
-            self.use(n.id)
-            return (n.id, kind(n.id))
+            nm = (self.alias or {}).get(n.id, n.id)
+            self.use(nm)
+            return (nm, self.kind(nm))
         if isinstance(n, ast.Attribute) and var_of_target(n) == "rbuf":
             self.use("rbuf")
             return ("rbuf", "bytes")
@@ -270,7 +279,12 @@ class Body(E):
                 return out + self.stmts(rest, ind, bound | set(names))
             nme = var_of_target(t)
             txt, k = self.expr(s.value)
-            if kind(nme) != k:
+            known = nme in BYTES_VARS or nme in INT_VARS or nme in BOOL_VARS or (self.local_kinds and nme in self.local_kinds)
+            if not known and isinstance(t, ast.Name) and nme.isidentifier() and nme not in ("late",):
+                if self.local_kinds is None:
+                    self.local_kinds = {}
+                self.local_kinds[nme] = k            # a fresh local
+            if self.kind(nme) != k:
                 raise Unsupported("kind mismatch in %s" % dump(s))
             return pad + "let %s := %s in\n" % (nme, txt) + self.stmts(rest, ind, bound | {nme})
         if isinstance(s, ast.AugAssign) and isinstance(s.op, ast.Add):
@@ -356,10 +370,22 @@ def definition(name, body, text, rettype):
     return "Definition %s %s : %s :=\n%s.\n" % (name, params_used(body.free), rettype, text)
 
 
+def effect_alias(stmts, meth, canonical):
+    names = [effect_of(x, meth) for x in stmts if effect_of(x, meth) is not None]
+    if len(names) != 1:
+        raise Unsupported("expected exactly one socket call at the top level of the loop body")
+    if names[0] != canonical and canonical in {n.id for x in stmts for n in ast.walk(x) if isinstance(n, ast.Name)}:
+        raise Unsupported("the name %s is used for something else" % canonical)
+    return {names[0]: canonical}
+
+
 def gen_loop(fn_name, loop, live_break, live_effect, live_cont, live_raise, meth, test_dump, orelse_ok):
-    if dump(loop.test) != test_dump:
+    alias = effect_alias(loop.body, meth, "nxt")
+    src_name = list(alias)[0]
+    if dump(loop.test) != test_dump.replace("'nxt'", "'%s'" % src_name):
         raise Unsupported("%s: loop condition %s" % (fn_name, dump(loop.test)))
     orelse_ok(loop.orelse)
+    E.alias = alias
     b = Body(live_effect, meth, live_break, live_raise)
     pre = b.stmts(loop.body, 1)
     if "IFallsThrough" in pre:
@@ -426,6 +452,7 @@ def translate(repo):
     out.append("Definition src_ru_find_offset_start0 : Z := 0.\n")
 
     # ---- recv_size ------------------------------------------------------------------------------------
+    E.alias = None
     fn = get_method(tree, "BufferedSocket", "recv_size")
     loop, trail = find_while(fn)
 
@@ -450,14 +477,16 @@ def translate(repo):
     out.append(definition("src_rs_finish", b, b.stmts(fin, 1), "iter unit (bytes * bytes) unit"))
 
     # ---- send -----------------------------------------------------------------------------------------
+    E.alias = None
     fn = get_method(tree, "BufferedSocket", "send")
     loop, trail = find_while(fn)
     want_test = "Subscript(value=Name(id='sbuf', ctx=Load()), slice=Constant(value=0), ctx=Load())"
     if dump(loop.test) != want_test or loop.orelse:
         raise Unsupported("send: loop condition %s" % dump(loop.test))
     body = loop.body
-    if effect_of(body[0], "send") != "sent" or dump(body[0].value.args) != "[%s]" % want_test:
+    if effect_of(body[0], "send") is None or dump(body[0].value.args) != "[%s]" % want_test:
         raise Unsupported("send: first statement of the loop body %s" % dump(body[0]))
+    E.alias = effect_alias(body, "send", "sent")
     b = Body(["sbuf0", "total_sent"], "send", None, "sbuf0")
     b.mode = "post"
     out.append(definition("src_send_post", b, b.stmts(body[1:], 1), "iter unit (bytes * Z) bytes"))
